@@ -11,9 +11,9 @@ def errJsonLoc (e : Err) : Json :=
   Json.mkObj ([("field", Json.str e.field), ("pointer", jstrs (e.pointer.map tokStr))] ++
               (match e.value with | some v => [("value", fromJ v)] | none => []))
 
-def outJson (inj : Bool) (o : Res × J) : Json :=
+def outJson (inj : Bool) (v : J) (o : Res × J) : Json :=
   Json.mkObj ([("ok", Json.bool o.1.isOk)] ++ (if o.1.errs.isEmpty then [] else [("errs", Json.arr (o.1.errs.map errJsonLoc).toArray)]) ++
-              (if inj then [("after", fromJ o.2)] else []))
+              (if inj then [("after", fromJ o.2), ("fired", Json.bool (!jeq o.2 v))] else []))
 
 /-- request: {schema, value, regex, formats, ctx, dfl, …}; reply: the model's report in each of the four modes (with the
 value afterwards when defaults are injected) and the spec verdict. Without injection the model is `validate` (the
@@ -43,12 +43,13 @@ def handle (j : Json) : Json :=
     (if m.1.errs.any (fun e => e.value.isNone) then ["err.novalue"] else []) ++
     (if env.asreq then ["ctx.asreq"] else []) ++ (if env.asrep then ["ctx.asrep"] else []) ++
     (if env.dfl then ["opt.defaultsSet"] else []) ++
-    (if changed then ["dflt.injected"] else []) ++
+    (if changed then ["dflt.injected", "dflt.callback"] else []) ++
+    (if inj && !changed && s.hasPropDflt then ["dflt.callback.silent"] else []) ++
     (if changed && !d.1.isOk then ["dflt.injected.rejected"] else []) ++
     (if inj && (fromJ d.2).compress != (fromJ m.2).compress then ["dflt.after.differs.by.mode"] else []) ++
     (if getBool j "xcheck" then ["xcheck"] else []) ++
     (if m.1.errs.any (fun e => e.field == roErr.field) then ["err.readWriteOnly"] else [])
-  jobj [("model", jobj [("dflt", outJson inj d), ("multi", outJson inj m), ("failfast", outJson inj f), ("ffmulti", outJson inj fm),
+  jobj [("model", jobj [("dflt", outJson inj v d), ("multi", outJson inj v m), ("failfast", outJson inj v f), ("ffmulti", outJson inj v fm),
                         ("xbad", Json.bool xbad)]),
         ("spec", if inj then jobj [("agree", Json.bool true)] else jobj [("sat", Json.bool sp)]),
         ("excl", jstrs (if inj && s.dfltUnderNot then ["DefaultUnderNot"] else [])), ("branches", jstrs br)]
